@@ -223,9 +223,9 @@ func localPort(r *http.Request) string {
 	if r == nil {
 		return ""
 	}
-	n := strings.Index(r.Host, ":")
-	if n > 0 && n < len(r.Host)-1 {
-		return r.Host[n+1:]
+	// the host can be an IPv6 address like [::1]:8080
+	if _, port, err := net.SplitHostPort(r.Host); err == nil && port != "" {
+		return port
 	}
 	if r.TLS != nil {
 		return "443"
